@@ -165,7 +165,7 @@ class World:
 
     MLENS = [0, 1, 32, 55, 56, 63, 64, 65, 200, 2100, 65500, 66000]     # beyond the 16-bit lengths of expand_message_xmd too
 
-    def __init__(self, seed, nonempty_m1=False):
+    def __init__(self, seed, nonempty_m1=False, empty_m1=False):
         ob = _W["ob"]
         self.rng = random.Random(seed)
         self.r = ob.curve_order
@@ -182,6 +182,10 @@ class World:
         self.rng.shuffle(ms)
         if nonempty_m1 and not ms[0]:       # "K1m1" (= PK || m1) must differ from "K1" (= PK) as bytes
             ms[0], ms[1] = ms[1], ms[0]
+        if empty_m1 and not nonempty_m1:
+            ms = [b""] + [x for x in ms if x][:2]
+            while len(ms) < 3:
+                ms.append(self.rng.randbytes(7 + len(ms)))
         self.m = dict(zip(("m1", "m2", "m3"), ms))
         self.rng.shuffle(self.k)
         self._pk = {}
@@ -378,7 +382,7 @@ def _run_scenario(job):
     log = _W["log"]
     row = {"op": "run", "sc": sc, "got": 0, "raised": 0, "pair": [], "idx": idx, "steps": [], "stepsok": 0}
     try:
-        w = World(seed, nonempty_m1="K1m1" in json.dumps(sc))
+        w = World(seed, nonempty_m1="K1m1" in json.dumps(sc), empty_m1=bool(sc.get("empty_m1")))
         w.flipbit = sc["sig"].get("bit")
         S = _W["suites"][sc["suite"]]
         pks = [w.key_bytes(pk) for pk in sc["pks"]]
@@ -780,6 +784,19 @@ def run(ctx: Ctx, focus):
             extra.append({"entry": "PopVerify", "suite": "pop", "pks": [{"cls": "valid", "key": "K1"}], "msgs": [],
                           "sig": {"cls": "bitflip", "desc": [{"kind": "pop", "coef": 1, "suite": "pop", "key": "K1",
                                                               "msg": "nomsg", "j": 0}], "bit": b}, "note": "bitflip"})
+    if focus in ("C01", "C02", "C03"):
+        # the empty message, deterministically in every run and suite (the random message lengths reach it only sometimes)
+        vk_ = lambda k: {"cls": "valid", "key": k}      # noqa: E731
+        for s_ in ("basic", "aug", "pop"):
+            if focus != "C03":
+                extra.append({"entry": "Verify", "suite": s_, "pks": [vk_("K1")], "msgs": ["m1"], "empty_m1": 1,
+                              "sig": {"cls": "valid", "desc": [_sign_t(s_, "K1", "m1")]}, "note": "canonical"})
+                extra.append({"entry": "Verify", "suite": s_, "pks": [vk_("K1")], "msgs": ["m1"], "empty_m1": 1,
+                              "sig": {"cls": "valid", "desc": [_sign_t(s_, "K1", "m2")]}, "note": "other_message"})
+            else:
+                extra.append({"entry": "AggregateVerify", "suite": s_, "pks": [vk_("K1"), vk_("K2")], "msgs": ["m1", "m2"],
+                              "empty_m1": 1, "note": "canonical",
+                              "sig": {"cls": "valid", "desc": [_sign_t(s_, "K1", "m1"), _sign_t(s_, "K2", "m2")]}})
     base = len(jobs)
     jobs += [(base + i, ctx.seed * 104729 + i, sc) for i, sc in enumerate(extra)]
     chains = []
